@@ -157,6 +157,10 @@ def render_doc(d: dict) -> str:
 # Scoping chains (Scoping.tla) -> text
 
 def _bind_text(b: dict) -> str:
+    if b["k"] == "setv":
+        return f"{b['n']} = {{ " + " ".join(_bind_text(x) for x in b["sv"]) + " };"
+    if b["k"] == "inhfrom":
+        return f"inherit ({b['m']}) {b['n']};"
     if b["k"] == "lit":
         return f"{b['n']} = {b['v']};"
     if b["k"] == "ref":
@@ -169,6 +173,9 @@ def render_chain(ch: list[dict], name: str = "a") -> tuple[str, list[str], bool]
     The reference `x = <name>;' sits in a holder set below the last frame, or inside the last frame when that is `rec'."""
     frames = list(ch)
     keys = ["x"]
+    formals = None
+    if frames and frames[0]["kind"] == "formals":
+        formals = frames.pop(0)
     if frames and frames[-1]["kind"] == "rec":
         last = frames.pop()
         inner = "rec { " + " ".join(_bind_text(b) for b in last["binds"]) + f" x = {name}; }}"
@@ -195,6 +202,11 @@ def render_chain(ch: list[dict], name: str = "a") -> tuple[str, list[str], bool]
             below_set = True
         elif below_set and (f["kind"] == "with" or f["binds"]):
             editable = False
+    if formals is not None:
+        fs = ", ".join(f"{b['n']} ? {b['v']}" if b["v"] else b["n"] for b in formals["binds"])
+        args = " ".join(f"{b['n']} = {b['arg']};" for b in formals["binds"] if b["arg"])
+        inner = f"({{ {fs} }}: {inner}) {{ {args} }}" if fs else f"({{ }}: {inner}) {{ {args} }}"
+        editable = False
     return inner + "\n", keys, editable
 
 
